@@ -75,7 +75,7 @@ def resolve(fq: str):
 
 
 PLAIN_SNAPSHOT = {"MemoryWorkflowStore", "_ControlLoopRunner", "FakeAdapter", "JournalAdapter", "_ServerInternalRunAdapter",
-                  "ServerRuntimeDecorator", "IdleReleaseDecorator"}
+                  "ServerRuntimeDecorator", "IdleReleaseDecorator", "ResourceManager"}
 
 
 def safe_deepcopy(x, _depth=0):
@@ -219,11 +219,14 @@ def check_once(contract_cls, fn, args: dict, clauses=None):
             failures.append(("raises", f"unexpected {type(raised).__name__}: {raised}"))
         # postconditions of this exceptional exit: raised_<Exc>(old, <params>, exc)
         for name in dir(contract_cls):
-            if name.startswith("raised_") and name.split("_")[1] in names:
+            if name.startswith("raised_") and (name.split("_")[1] in names or name.split("_")[1] == "any"):
                 if clauses is not None and name not in clauses:
                     continue
                 try:
-                    if not getattr(contract_cls, name)(old=old, exc=raised, **args):
+                    kw_ = dict(args)
+                    if "exc" in inspect.signature(getattr(contract_cls, name)).parameters:
+                        kw_["exc"] = raised
+                    if not getattr(contract_cls, name)(old=old, **kw_):
                         failures.append((name, "clause is False"))
                 except Exception as e:
                     from .dsl import NotNative
